@@ -96,17 +96,16 @@ class BitReader:
     """bits of whole 32-bit words only (a trailing partial word is not readable)"""
 
     def __init__(self, data):
-        nwords = len(data) // 4
-        self.acc = int.from_bytes(data[: 4 * nwords], "big")
-        self.nbits = 32 * nwords
+        self.data = bytes(data[: 4 * (len(data) // 4)])
+        self.nbits = 8 * len(self.data)
         self.pos = 0
 
     def bit(self):
-        if self.pos >= self.nbits:
-            raise StreamEnded("bit %d" % self.pos)
-        b = (self.acc >> (self.nbits - 1 - self.pos)) & 1
-        self.pos += 1
-        return b
+        p = self.pos
+        if p >= self.nbits:
+            raise StreamEnded("bit %d" % p)
+        self.pos = p + 1
+        return (self.data[p >> 3] >> (7 - (p & 7))) & 1
 
     def uvar_get(self, nbin):
         v = 0
